@@ -129,6 +129,44 @@ func init() {
 				t.Fatalf("harness: valid DID document update refused: %s", out)
 			}
 		}
+		// two steps: a (mutated) creation that the node ACCEPTS is followed by a valid update of the same DID, which makes
+		// the node resolve keys and controllers from what it stored ("... or storage")
+		name2 := "didnuts.ambassador.callback(create,update)"
+		if s.WantEntry(name2) {
+			embedded := nutsDoc()
+			vms := embedded["verificationMethod"].([]any)
+			embedded["capabilityInvocation"] = []any{vms[0], embedded["capabilityInvocation"].([]any)[0]}
+			embedded["keyAgreement"] = []any{vms[1]}
+			for di, base := range []map[string]any{doc, embedded} {
+				base := base
+				sweepStore(s, name2, fmt.Sprintf("doc%d", di), base, false, func(d any) ([]byte, func() string) {
+					raw := mustJSON(d)
+					return raw, func() string {
+						fix = newAmbFix(t) // empty store
+						hdr := txHeader(nil, 0, true, nil)
+						tx, _ := mustTxPayloadHash(hdr, raw)
+						if err := didnuts.VerifAmbassadorCallback(fix.amb, tx, raw); err != nil {
+							_ = fix.db.Close(context.Background())
+							return "create-rejected"
+						}
+						upd := nutsDoc()
+						upd["service"] = upd["service"].([]any)[:1]
+						uh := txHeader([]hash.SHA256Hash{tx.Ref()}, 1, false, nil)
+						uh["kid"] = kid0
+						utx, _ := mustTxPayloadHash(uh, mustJSON(upd))
+						err := didnuts.VerifAmbassadorCallback(fix.amb, utx, mustJSON(upd))
+						_, _, _ = fix.store.Resolve(id, nil)
+						_, _, _ = (resolver.DIDKeyResolver{Resolver: didnuts.Resolver{Store: fix.store}}).ResolveKey(id, nil, resolver.CapabilityInvocation)
+						_ = fix.db.Close(context.Background())
+						if err != nil {
+							return "update-rejected"
+						}
+						return "ok"
+					}
+				}, func() {})
+			}
+			setup()
+		}
 		for _, update := range []bool{false, true} {
 			update := update
 			inst := map[bool]string{false: "create", true: "update"}[update]
